@@ -1,1 +1,1422 @@
-(** Proofs/EngineProofs.v — placeholder, to be written. *)
+(** Proofs/EngineProofs.v — lemmas about Model/Engine.v.
+    Most are about the OPEN functions, for arbitrary [rg] (the nested run_step_groups) and
+    [rp] (the nested pipeline run): they hold whatever the called groups / child pipelines
+    do, i.e. for every program and every nesting depth.  The global invariants at the end
+    are by induction on fuel. *)
+From PV Require Import Engine.
+From Coq Require Import Lia.
+Open Scope string_scope.
+
+(** * Association-list dictionaries *)
+Lemma val_eqb_VStr a b : val_eqb (VStr a) (VStr b) = String.eqb a b.
+Proof. reflexivity. Qed.
+
+Lemma val_eqb_str_sym a k : val_eqb (VStr a) k = val_eqb k (VStr a).
+Proof. destruct k; simpl; try reflexivity. apply String.eqb_sym. Qed.
+
+Lemma val_eqb_str_eq a b k : val_eqb (VStr a) k = true -> val_eqb (VStr b) k = true -> a = b.
+Proof.
+  destruct k; simpl; try discriminate. intros E E'.
+  apply String.eqb_eq in E. apply String.eqb_eq in E'. congruence.
+Qed.
+
+Local Arguments val_eqb : simpl never.
+Local Arguments format_value : simpl never.
+Local Opaque LOOPFUEL FUEL.
+
+Lemma sget_sset_same k v d : sget k (sset k v d) = Some v.
+Proof.
+  unfold sget, sset. induction d as [|[k' v'] d IH]; simpl.
+  - now rewrite val_eqb_VStr, String.eqb_refl.
+  - destruct (val_eqb (VStr k) k') eqn:E; simpl; rewrite E; auto.
+Qed.
+
+Lemma sget_sset_other k k' v d : k <> k' -> sget k' (sset k v d) = sget k' d.
+Proof.
+  intros Hne. unfold sget, sset. induction d as [|[k0 v0] d IH]; simpl.
+  - rewrite val_eqb_VStr. destruct (String.eqb k' k) eqn:E; [apply String.eqb_eq in E; congruence|reflexivity].
+  - destruct (val_eqb (VStr k) k0) eqn:E; simpl.
+    + destruct (val_eqb (VStr k') k0) eqn:E'; [|reflexivity].
+      exfalso. apply Hne. eapply val_eqb_str_eq; eauto.
+    + destruct (val_eqb (VStr k') k0); auto.
+Qed.
+
+Lemma dict_get_pop_same k d : dict_get k (dict_pop k d) = None.
+Proof.
+  unfold dict_pop. induction d as [|[k' v'] d IH]; simpl; [reflexivity|].
+  destruct (val_eqb k k') eqn:E; simpl; [exact IH|]. now rewrite E.
+Qed.
+
+Lemma sget_pop_other k k' d : k <> k' -> sget k' (dict_pop (VStr k) d) = sget k' d.
+Proof.
+  intros Hne. unfold sget, dict_pop. induction d as [|[k0 v0] d IH]; simpl; [reflexivity|].
+  destruct (val_eqb (VStr k) k0) eqn:E; simpl.
+  - destruct (val_eqb (VStr k') k0) eqn:E'; [|exact IH].
+    exfalso. apply Hne. eapply val_eqb_str_eq; eauto.
+  - destruct (val_eqb (VStr k') k0); auto.
+Qed.
+
+(** * Sequencing *)
+Lemma andthen_ok s k : andthen (OOk, s) k = k s.
+Proof. reflexivity. Qed.
+
+Lemma andthen_not_ok o s k : o <> OOk -> andthen (o, s) k = (o, s).
+Proof. destruct o; simpl; congruence. Qed.
+
+Lemma andthen_assoc r k1 k2 :
+  andthen (andthen r k1) k2 = andthen r (fun s => andthen (k1 s) k2).
+Proof. destruct r as [[| | |] s]; reflexivity. Qed.
+
+Section Open.
+  Variable lib : library.
+  Variable rg : list val -> option string -> option string -> st -> R.
+  Variable rp : string -> option (list val) -> option string -> option string -> st -> R.
+
+  Notation run_step := (run_step rg rp).
+  Notation run_steps := (run_steps rg rp).
+  Notation run_group := (run_group lib rg rp).
+  Notation run_group_seq := (run_group_seq lib rg rp).
+  Notation run_failure := (run_failure lib rg rp).
+  Notation groups_body := (groups_body lib rg rp).
+  Notation cond := (cond rg rp).
+  Notation invoke := (invoke rg rp).
+  Notation retry_loop := (retry_loop rg rp).
+  Notation retry_iter := (retry_iter rg rp).
+  Notation foreach_items := (foreach_items rg rp).
+  Notation foreach_or_cond := (foreach_or_cond rg rp).
+  Notation while_iter := (while_iter rg rp).
+  Notation while_loop := (while_loop rg rp).
+  Notation pype_step := (pype_step rp).
+
+  (** ** C01: steps and groups in declaration order, fail fast *)
+  Lemma run_steps_app a b s :
+    run_steps (a ++ b) s = andthen (run_steps a s) (run_steps b).
+  Proof.
+    revert s; induction a as [|sp a IH]; intros s; simpl.
+    - destruct (run_steps b s) as [[| | |] s']; reflexivity.
+    - rewrite andthen_assoc. destruct (run_step sp s) as [[| | |] s1]; simpl; auto.
+  Qed.
+
+  Lemma run_steps_failfast sp rest s o s' :
+    run_step sp s = (o, s') -> o <> OOk -> run_steps (sp :: rest) s = (o, s').
+  Proof. intros H Hne. simpl. rewrite H. now apply andthen_not_ok. Qed.
+
+  Lemma run_steps_stops_at pre sp post s s1 o s2 :
+    run_steps pre s = (OOk, s1) -> run_step sp s1 = (o, s2) -> o <> OOk ->
+    run_steps (pre ++ sp :: post) s = (o, s2).
+  Proof.
+    intros Hpre Hsp Hne. rewrite run_steps_app, Hpre. simpl.
+    rewrite Hsp. now apply andthen_not_ok.
+  Qed.
+
+  Lemma run_group_seq_app a b s :
+    run_group_seq (a ++ b) s = andthen (run_group_seq a s) (run_group_seq b).
+  Proof.
+    revert s; induction a as [|g a IH]; intros s; simpl.
+    - destruct (run_group_seq b s) as [[| | |] s']; reflexivity.
+    - rewrite andthen_assoc. destruct (run_group g false s) as [[| | |] s1]; simpl; auto.
+  Qed.
+
+  Lemma run_group_seq_stops_at pre g post s s1 o s2 :
+    run_group_seq pre s = (OOk, s1) -> run_group g false s1 = (o, s2) -> o <> OOk ->
+    run_group_seq (pre ++ g :: post) s = (o, s2).
+  Proof.
+    intros Hpre Hg Hne. rewrite run_group_seq_app, Hpre. simpl.
+    rewrite Hg. now apply andthen_not_ok.
+  Qed.
+
+  (** the [try] body of run_step_groups *)
+  Definition main_part (names : list string) (success : option string) (s : st) : R :=
+    andthen (run_group_seq names s) (fun s1 =>
+      match success with
+      | Some sg => match sg with "" => (OOk, s1) | _ => run_group sg false s1 end
+      | None => (OOk, s1)
+      end).
+
+  Lemma groups_body_unfold g gs names success failure s :
+    names_of (g :: gs) = Some names ->
+    groups_body (g :: gs) success failure s =
+    match main_part names success s with
+    | (ORaise (RExn n m e), s1) =>
+        match failure with
+        | Some fg =>
+            match fg with
+            | "" => (ORaise (RExn n m e), s1)
+            | _ =>
+                match run_failure fg s1 with
+                | (ORaise (RSig SStopStepGroup), s2) => (OOk, s2)
+                | (OOk, s2) => (ORaise (RExn n m e), s2)
+                | r => r
+                end
+            end
+        | None => (ORaise (RExn n m e), s1)
+        end
+    | r => r
+    end.
+  Proof.
+    intros Hn. unfold groups_body, main_part. rewrite Hn.
+    destruct (andthen (run_group_seq names s) _) as [[|[n m e|sg]|c|] s1]; reflexivity.
+  Qed.
+
+  (** success group runs after all requested groups completed, and only then *)
+  Lemma main_part_all_ok names sg s s1 :
+    run_group_seq names s = (OOk, s1) -> sg <> "" ->
+    main_part names (Some sg) s = run_group sg false s1.
+  Proof. intros H Hne. unfold main_part. rewrite H. simpl. destruct sg; congruence. Qed.
+
+  Lemma main_part_not_ok names success s o s1 :
+    run_group_seq names s = (o, s1) -> o <> OOk -> main_part names success s = (o, s1).
+  Proof. intros H Hne. unfold main_part. rewrite H. now apply andthen_not_ok. Qed.
+
+  (** when an error escapes: the failure group runs (once); its own errors never replace
+      the original error; only a Stop issued by the handler itself changes the outcome *)
+  Lemma groups_body_error g gs names success fg s n m e s1 :
+    names_of (g :: gs) = Some names -> fg <> "" ->
+    main_part names success s = (ORaise (RExn n m e), s1) ->
+    groups_body (g :: gs) success (Some fg) s =
+    match run_group fg true s1 with
+    | (ORaise (RSig SStopStepGroup), s2) => (OOk, s2)          (* quiet end *)
+    | (ORaise (RSig sg), s2) => (ORaise (RSig sg), s2)         (* Stop / StopPipeline *)
+    | (OUnsup, s2) => (OUnsup, s2)
+    | (_, s2) => (ORaise (RExn n m e), s2)                     (* the ORIGINAL error *)
+    end.
+  Proof.
+    intros Hn Hne Hm. rewrite (groups_body_unfold _ _ _ _ _ _ Hn), Hm.
+    destruct fg; [congruence|]. unfold run_failure.
+    destruct (run_group _ true s1) as [[|[n' m' e'|[| | |c|c]]|c|] s2]; reflexivity.
+  Qed.
+
+  Lemma groups_body_error_no_handler g gs names success s n m e s1 :
+    names_of (g :: gs) = Some names ->
+    main_part names success s = (ORaise (RExn n m e), s1) ->
+    groups_body (g :: gs) success None s = (ORaise (RExn n m e), s1).
+  Proof. intros Hn Hm. now rewrite (groups_body_unfold _ _ _ _ _ _ Hn), Hm. Qed.
+
+  (** control-of-flow instructions never trigger the failure handler *)
+  Lemma groups_body_signal g gs names success failure s sg s1 :
+    names_of (g :: gs) = Some names ->
+    main_part names success s = (ORaise (RSig sg), s1) ->
+    groups_body (g :: gs) success failure s = (ORaise (RSig sg), s1).
+  Proof. intros Hn Hm. now rewrite (groups_body_unfold _ _ _ _ _ _ Hn), Hm. Qed.
+
+  Lemma groups_body_ok g gs names success failure s s1 :
+    names_of (g :: gs) = Some names ->
+    main_part names success s = (OOk, s1) ->
+    groups_body (g :: gs) success failure s = (OOk, s1).
+  Proof. intros Hn Hm. now rewrite (groups_body_unfold _ _ _ _ _ _ Hn), Hm. Qed.
+
+  (** ** scopes of the stop instructions (C02) *)
+  Lemma run_group_stopstepgroup g s s1 :
+    run_steps (get_steps lib g s) s = (ORaise (RSig SStopStepGroup), s1) ->
+    run_group g false s = (OOk, s1).
+  Proof. intros H. unfold Engine.run_group. now rewrite H. Qed.
+
+  Lemma run_group_other_signal g b s s1 sg :
+    run_steps (get_steps lib g s) s = (ORaise (RSig sg), s1) ->
+    sg = SStop \/ sg = SStopPipeline ->
+    run_group g b s = (ORaise (RSig sg), s1).
+  Proof. intros H [-> | ->]; unfold Engine.run_group; now rewrite H. Qed.
+
+  Lemma run_group_jump g b s s1 c :
+    run_steps (get_steps lib g s) s = (ORaise (RSig (SJump c)), s1) ->
+    run_group g b s = rg (c_groups c) (c_success c) (c_failure c) s1.
+  Proof. intros H. unfold Engine.run_group. now rewrite H. Qed.
+
+  (** ** cond: run / skip / swallow; instructions pass untouched (C02, C04, C07) *)
+  Definition inner (sp : step) (k : counters) (s : st) : R :=
+    match s_retry sp with
+    | Some rc => retry_loop rc sp k s
+    | None => invoke sp k s
+    end.
+
+  Lemma cond_run_false sp k s :
+    as_bool s (s_run sp) = Ok false -> cond sp k s = (OOk, s).
+  Proof. intros H. unfold Engine.cond. rewrite H. reflexivity. Qed.
+
+  Lemma cond_skip_true sp k s :
+    as_bool s (s_run sp) = Ok true -> as_bool s (s_skip sp) = Ok true -> cond sp k s = (OOk, s).
+  Proof. intros H1 H2. unfold Engine.cond. rewrite H1. simpl. rewrite H2. reflexivity. Qed.
+
+  Lemma cond_exec sp k s :
+    as_bool s (s_run sp) = Ok true -> as_bool s (s_skip sp) = Ok false ->
+    cond sp k s =
+    match inner sp k s with
+    | (ORaise (RExn name msg eid), s1) =>
+        lift (as_bool s1 (s_swallow sp)) s1 (fun swallow =>
+        andthen (save_error sp name msg eid swallow s1) (fun s2 =>
+        if swallow then (OOk, s2) else (ORaise (RExn name msg eid), s2)))
+    | (OHandled cause, s1) =>
+        lift (as_bool s1 (s_swallow sp)) s1 (fun swallow =>
+        if swallow then (OOk, s1) else (ORaise cause, s1))
+    | r => r
+    end.
+  Proof.
+    intros H1 H2. unfold Engine.cond, inner. rewrite H1. simpl. rewrite H2.
+    destruct (match s_retry sp with Some rc => _ | None => _ end) as [[|[? ? ?|?]|?|] ?]; reflexivity.
+  Qed.
+
+  Lemma cond_signal sp k s sg s1 :
+    as_bool s (s_run sp) = Ok true -> as_bool s (s_skip sp) = Ok false ->
+    inner sp k s = (ORaise (RSig sg), s1) ->
+    cond sp k s = (ORaise (RSig sg), s1).
+  Proof. intros H1 H2 Hi. rewrite (cond_exec _ _ _ H1 H2), Hi. reflexivity. Qed.
+
+  Lemma cond_ok sp k s s1 :
+    as_bool s (s_run sp) = Ok true -> as_bool s (s_skip sp) = Ok false ->
+    inner sp k s = (OOk, s1) -> cond sp k s = (OOk, s1).
+  Proof. intros H1 H2 Hi. rewrite (cond_exec _ _ _ H1 H2), Hi. reflexivity. Qed.
+
+  Lemma cond_error sp k s name msg eid s1 swallow :
+    as_bool s (s_run sp) = Ok true -> as_bool s (s_skip sp) = Ok false ->
+    inner sp k s = (ORaise (RExn name msg eid), s1) ->
+    as_bool s1 (s_swallow sp) = Ok swallow ->
+    cond sp k s =
+    andthen (save_error sp name msg eid swallow s1) (fun s2 =>
+      if swallow then (OOk, s2) else (ORaise (RExn name msg eid), s2)).
+  Proof.
+    intros H1 H2 Hi Hs. rewrite (cond_exec _ _ _ H1 H2), Hi. simpl. rewrite Hs. reflexivity.
+  Qed.
+
+  Lemma cond_handled sp k s cause s1 swallow :
+    as_bool s (s_run sp) = Ok true -> as_bool s (s_skip sp) = Ok false ->
+    inner sp k s = (OHandled cause, s1) ->
+    as_bool s1 (s_swallow sp) = Ok swallow ->
+    cond sp k s = if swallow then (OOk, s1) else (ORaise cause, s1).
+  Proof.
+    intros H1 H2 Hi Hs. rewrite (cond_exec _ _ _ H1 H2), Hi. simpl. rewrite Hs. reflexivity.
+  Qed.
+
+  (** ** invoke: call returns to its caller with the caller's counters (C03, C02, C07) *)
+  Lemma invoke_not_call sp k s o s1 :
+    run_body rp sp s = (o, s1) -> (forall c, o <> ORaise (RSig (SCall c))) ->
+    invoke sp k s = (o, s1).
+  Proof.
+    intros H Hn. unfold Engine.invoke. rewrite H.
+    destruct o as [|[n m e|[| | |c|c]]|c|]; try reflexivity. exfalso. now apply (Hn c).
+  Qed.
+
+  Lemma invoke_call sp k s c s1 :
+    run_body rp sp s = (ORaise (RSig (SCall c)), s1) ->
+    invoke sp k s =
+    (let '(o, s2) := rg (c_groups c) (c_success c) (c_failure c) s1 in
+     let s3 := reset_counters sp k c s2 in
+     match o with
+     | OOk => (OOk, s3)
+     | ORaise (RSig sg) => (ORaise (RSig sg), s3)
+     | ORaise r => (OHandled r, s3)
+     | OHandled _ => (OUnsup, s3)
+     | OUnsup => (OUnsup, s3)
+     end).
+  Proof. intros H. unfold Engine.invoke. rewrite H. reflexivity. Qed.
+
+  (** whatever the called groups left in context (keys overwritten or removed), the
+      caller's counters and call config are restored, and nothing else is touched *)
+  Lemma reset_counters_while sp k c s w n :
+    s_while sp = Some w -> k_while k = Some n ->
+    c_key c <> "whileCounter" -> has_foreach sp = false -> s_retry sp = None ->
+    sget "whileCounter" (ctx (reset_counters sp k c s)) = Some (VInt n).
+  Proof.
+    intros Hw Hk Hne Hf Hr. unfold reset_counters. rewrite Hw, Hk, Hf, Hr. simpl.
+    rewrite sget_sset_other by congruence. apply sget_sset_same.
+  Qed.
+
+  Lemma reset_counters_key sp k c s :
+    sget (c_key c) (ctx (reset_counters sp k c s)) = Some (c_orig c).
+  Proof. unfold reset_counters. simpl. apply sget_sset_same. Qed.
+
+  Lemma reset_counters_frame sp k c s key :
+    key <> "whileCounter" -> key <> "i" -> key <> "retryCounter" -> key <> c_key c ->
+    sget key (ctx (reset_counters sp k c s)) = sget key (ctx s).
+  Proof.
+    intros H1 H2 H3 H4. unfold reset_counters. simpl.
+    rewrite sget_sset_other by congruence.
+    destruct (s_retry sp), (k_retry k); try rewrite sget_sset_other by congruence;
+      destruct (has_foreach sp); destruct (k_for k); try rewrite sget_sset_other by congruence;
+      destruct (s_while sp), (k_while k); try rewrite sget_sset_other by congruence; reflexivity.
+  Qed.
+
+  (** general form: each counter the step owns is restored *)
+  Lemma reset_counters_all sp k c s :
+    c_key c <> "whileCounter" -> c_key c <> "i" -> c_key c <> "retryCounter" ->
+    (forall w n, s_while sp = Some w -> k_while k = Some n ->
+                 sget "whileCounter" (ctx (reset_counters sp k c s)) = Some (VInt n)) /\
+    (forall v, has_foreach sp = true -> k_for k = Some v ->
+               sget "i" (ctx (reset_counters sp k c s)) = Some v) /\
+    (forall r n, s_retry sp = Some r -> k_retry k = Some n ->
+                 sget "retryCounter" (ctx (reset_counters sp k c s)) = Some (VInt n)).
+  Proof.
+    intros N1 N2 N3. unfold reset_counters. simpl. repeat split.
+    - intros w n Hw Hk. rewrite Hw, Hk. rewrite sget_sset_other by congruence.
+      destruct (s_retry sp), (k_retry k); try rewrite sget_sset_other by congruence;
+        destruct (has_foreach sp); destruct (k_for k); try rewrite sget_sset_other by congruence;
+        apply sget_sset_same.
+    - intros v Hf Hk. rewrite Hf, Hk. rewrite sget_sset_other by congruence.
+      destruct (s_retry sp), (k_retry k); try rewrite sget_sset_other by congruence;
+        apply sget_sset_same.
+    - intros r n Hr Hk. rewrite Hr, Hk. rewrite sget_sset_other by congruence.
+      apply sget_sset_same.
+  Qed.
+End Open.
+
+(** * switch: first true case, default only in last position (C03) *)
+Lemma switch_select_hit s c rest idx last e call :
+  (Nat.eqb idx last = false \/ sget "default" c = None \/ sget "default" c = Some VNone) ->
+  sget "case" c = Some e -> sget "call" c = Some call -> py_truth call = true ->
+  as_bool s e = Ok true ->
+  switch_select s (VDict c :: rest) idx last = Ok (Some call).
+Proof.
+  intros Hd Hc Hcall Ht Hb. simpl.
+  assert (D : (if Nat.eqb idx last then
+                 match sget "default" c with Some VNone | None => None | Some d => Some d end
+               else None) = None).
+  { destruct Hd as [-> | [-> | ->]]; [reflexivity| |]; destruct (Nat.eqb idx last); reflexivity. }
+  rewrite D, Hc, Hcall, Ht. simpl. rewrite Hb. reflexivity.
+Qed.
+
+Lemma switch_select_skip s c rest idx last e call :
+  (Nat.eqb idx last = false \/ sget "default" c = None \/ sget "default" c = Some VNone) ->
+  sget "case" c = Some e -> sget "call" c = Some call -> py_truth call = true ->
+  as_bool s e = Ok false ->
+  switch_select s (VDict c :: rest) idx last = switch_select s rest (S idx) last.
+Proof.
+  intros Hd Hc Hcall Ht Hb. simpl.
+  assert (D : (if Nat.eqb idx last then
+                 match sget "default" c with Some VNone | None => None | Some d => Some d end
+               else None) = None).
+  { destruct Hd as [-> | [-> | ->]]; [reflexivity| |]; destruct (Nat.eqb idx last); reflexivity. }
+  rewrite D, Hc, Hcall, Ht. simpl. rewrite Hb. reflexivity.
+Qed.
+
+Lemma switch_select_default s c idx d :
+  sget "default" c = Some d -> d <> VNone ->
+  switch_select s [VDict c] idx idx = Ok (Some d).
+Proof.
+  intros Hd Hn. simpl. rewrite Nat.eqb_refl, Hd. destruct d; try reflexivity. congruence.
+Qed.
+
+Lemma switch_select_none s idx last : switch_select s [] idx last = Ok None.
+Proof. reflexivity. Qed.
+
+(** a well-formed non-default case *)
+Definition plain_case (s : st) (v : val) (b : bool) (call : val) : Prop :=
+  exists c e, v = VDict c /\ sget "default" c = None /\ sget "case" c = Some e /\
+              sget "call" c = Some call /\ py_truth call = true /\ as_bool s e = Ok b.
+
+(** every case before the first true one is skipped, the first true one is taken, and
+    nothing after it is looked at *)
+Lemma switch_select_first_true s pre v call post idx last :
+  Forall (fun x => exists cl, plain_case s x false cl) pre ->
+  plain_case s v true call ->
+  switch_select s (pre ++ v :: post) idx last = Ok (Some call).
+Proof.
+  intros Hpre (c & e & -> & Hd & Hc & Hcall & Ht & Hb).
+  revert idx. induction Hpre as [|x pre (cl & c' & e' & -> & Hd' & Hc' & Hcall' & Ht' & Hb') _ IH];
+    intros idx; simpl app.
+  - eapply switch_select_hit; eauto.
+  - erewrite switch_select_skip; eauto.
+Qed.
+
+(** no case true and no default: nothing is called *)
+Lemma switch_select_all_false s cases idx last :
+  Forall (fun x => exists cl, plain_case s x false cl) cases ->
+  switch_select s cases idx last = Ok None.
+Proof.
+  intros H. revert idx. induction H as [|x l (cl & c' & e' & -> & Hd' & Hc' & Hcall' & Ht' & Hb') _ IH];
+    intros idx; [reflexivity|].
+  erewrite switch_select_skip; eauto.
+Qed.
+
+(** * poll: iterations and sleeps (C05, C06) *)
+Lemma poll_done fuel iter interval max i s s1 :
+  iter (i + 1)%Z s = (IDone true, s1) ->
+  poll (S fuel) iter interval max i s = (IDone true, s1).
+Proof. intros H. simpl. now rewrite H. Qed.
+
+Lemma poll_raise fuel iter interval max i s o s1 :
+  iter (i + 1)%Z s = (IRaise o, s1) ->
+  poll (S fuel) iter interval max i s = (IRaise o, s1).
+Proof. intros H. simpl. now rewrite H. Qed.
+
+Lemma poll_exhausted fuel iter interval m i s s1 d :
+  iter (i + 1)%Z s = (IDone false, s1) -> interval (Z.to_nat (i + 1)) = Some d ->
+  m <> 0%Z -> (m <= i + 1)%Z ->
+  poll (S fuel) iter interval (Some m) i s = (IDone false, s1).
+Proof.
+  intros H Hi Hm Hle. simpl. rewrite H, Hi.
+  destruct (Z.eqb_spec m 0); [congruence|].
+  destruct (Z.ltb_spec (i + 1) m); [lia|reflexivity].
+Qed.
+
+Lemma poll_again fuel iter interval max i s s1 d :
+  iter (i + 1)%Z s = (IDone false, s1) -> interval (Z.to_nat (i + 1)) = Some d ->
+  (max = None \/ max = Some 0%Z \/ exists m, max = Some m /\ (i + 1 < m)%Z) ->
+  poll (S fuel) iter interval max i s = poll fuel iter interval max (i + 1)%Z (add_sleep s1 d).
+Proof.
+  intros H Hi Hm. simpl. rewrite H, Hi.
+  destruct Hm as [-> | [-> | (m & -> & Hlt)]]; try reflexivity.
+  destruct (Z.eqb_spec m 0); [reflexivity|].
+  destruct (Z.ltb_spec (i + 1) m); [reflexivity|lia].
+Qed.
+
+Local Arguments poll : simpl never.
+
+Section Open2.
+  Variable lib : library.
+  Variable rg : list val -> option string -> option string -> st -> R.
+  Variable rp : string -> option (list val) -> option string -> option string -> st -> R.
+  Notation cond := (cond rg rp).
+  Notation invoke := (invoke rg rp).
+  Notation retry_iter := (retry_iter rg rp).
+  Notation foreach_items := (foreach_items rg rp).
+  Notation foreach_or_cond := (foreach_or_cond rg rp).
+  Notation foreach_loop := (foreach_loop rg rp).
+  Notation while_iter := (while_iter rg rp).
+  Notation while_loop := (while_loop rg rp).
+  Notation run_step := (run_step rg rp).
+
+  (** ** foreach: one conditional execution per item, in order, [i] bound to the item *)
+  Lemma foreach_items_app sp k a b s :
+    foreach_items sp k (a ++ b) s = andthen (foreach_items sp k a s) (foreach_items sp k b).
+  Proof.
+    revert s; induction a as [|it a IH]; intros s; simpl.
+    - destruct (foreach_items sp k b s) as [[| | |] ?]; reflexivity.
+    - rewrite andthen_assoc.
+      destruct (cond sp _ _) as [[| | |] s1]; simpl; auto.
+  Qed.
+
+  Lemma foreach_items_one sp k it s :
+    foreach_items sp k [it] s =
+    andthen (cond sp (mkcnt (k_while k) (Some it) (k_retry k)) (set_ctx s (sset "i" it (ctx s))))
+            (fun s' => (OOk, s')).
+  Proof. reflexivity. Qed.
+
+  Lemma foreach_items_stops sp k pre it post s s1 o s2 :
+    foreach_items sp k pre s = (OOk, s1) ->
+    cond sp (mkcnt (k_while k) (Some it) (k_retry k)) (set_ctx s1 (sset "i" it (ctx s1))) = (o, s2) ->
+    o <> OOk ->
+    foreach_items sp k (pre ++ it :: post) s = (o, s2).
+  Proof.
+    intros Hpre Hc Hne. rewrite foreach_items_app, Hpre. simpl. rewrite Hc.
+    now apply andthen_not_ok.
+  Qed.
+
+  Lemma foreach_items_nil sp k s : foreach_items sp k [] s = (OOk, s).
+  Proof. reflexivity. Qed.
+
+  (** the iterable is formatted exactly once, before the first iteration *)
+  Lemma foreach_loop_once sp k s fe v items :
+    s_foreach sp = Some fe -> fmt s fe = Ok v -> iter_items v = Ok items ->
+    foreach_loop sp k s = foreach_items sp k items s.
+  Proof. intros H1 H2 H3. unfold Engine.foreach_loop. rewrite H1, H2. simpl. now rewrite H3. Qed.
+
+  (** a literal falsy foreach is treated as "no foreach": the step runs once *)
+  Lemma foreach_or_cond_falsy sp k s :
+    has_foreach sp = false -> foreach_or_cond sp k s = cond sp k s.
+  Proof. intros H. unfold Engine.foreach_or_cond. now rewrite H. Qed.
+
+  (** ** while: counter injected, stop evaluated after the iteration; errors end the loop *)
+  Lemma while_iter_ok w sp n s s1 :
+    foreach_or_cond sp (mkcnt (Some n) None None)
+                    (set_ctx s (sset "whileCounter" (VInt n) (ctx s))) = (OOk, s1) ->
+    while_iter w sp n s =
+    if opt_truth (w_stop w) then
+      match w_stop w with
+      | Some e =>
+          match as_bool s1 e with
+          | Ok b => (IDone b, s1)
+          | Err en em => let '(o, s2) := raise_new en em s1 in (IRaise o, s2)
+          | Unsup => (IRaise OUnsup, s1)
+          end
+      | None => (IDone false, s1)
+      end
+    else (IDone false, s1).
+  Proof. intros H. unfold Engine.while_iter. now rewrite H. Qed.
+
+  Lemma while_iter_not_ok w sp n s o s1 :
+    foreach_or_cond sp (mkcnt (Some n) None None)
+                    (set_ctx s (sset "whileCounter" (VInt n) (ctx s))) = (o, s1) ->
+    o <> OOk -> while_iter w sp n s = (IRaise o, s1).
+  Proof. intros H Hne. unfold Engine.while_iter. rewrite H. destruct o; congruence. Qed.
+
+  Lemma while_loop_max_lt_1 w sp s eom sleep m :
+    let s0 := set_ctx s (sset "whileCounter" (VInt 0) (ctx s)) in
+    w_max w = Some m ->
+    as_bool s0 (w_eom w) = Ok eom -> as_float s0 (w_sleep w) = Ok sleep ->
+    forall z, as_int s0 m = Ok z -> (z < 1)%Z ->
+    while_loop w sp s = (OOk, s0).
+  Proof.
+    intros s0 Hm He Hs z Hz Hlt. unfold Engine.while_loop. fold s0. rewrite Hm.
+    destruct (w_stop w); rewrite He; simpl; rewrite Hs; simpl; rewrite Hz; simpl;
+      destruct (Z.ltb_spec z 1); try lia; reflexivity.
+  Qed.
+
+  (** ** retry: one attempt per iteration; instructions and filtered errors end it *)
+  Lemma retry_iter_ok rc sp k max n s s1 :
+    invoke sp (mkcnt (k_while k) (k_for k) (Some n))
+           (set_ctx s (sset "retryCounter" (VInt n) (ctx s))) = (OOk, s1) ->
+    retry_iter rc sp k max n s = (IDone true, s1).
+  Proof. intros H. unfold Engine.retry_iter. now rewrite H. Qed.
+
+  Lemma retry_iter_signal rc sp k max n s sg s1 :
+    invoke sp (mkcnt (k_while k) (k_for k) (Some n))
+           (set_ctx s (sset "retryCounter" (VInt n) (ctx s))) = (ORaise (RSig sg), s1) ->
+    retry_iter rc sp k max n s = (IRaise (ORaise (RSig sg)), s1).
+  Proof. intros H. unfold Engine.retry_iter. now rewrite H. Qed.
+
+  (** the error of the last permitted attempt propagates as it is *)
+  Lemma retry_iter_at_max rc sp k m n s name msg eid s1 :
+    invoke sp (mkcnt (k_while k) (k_for k) (Some n))
+           (set_ctx s (sset "retryCounter" (VInt n) (ctx s))) = (ORaise (RExn name msg eid), s1) ->
+    m <> 0%Z -> n = m ->
+    retry_iter rc sp k (Some m) n s = (IRaise (ORaise (RExn name msg eid)), s1).
+  Proof.
+    intros H Hm ->. unfold Engine.retry_iter. rewrite H.
+    destruct (Z.eqb_spec m 0); [congruence|]. simpl. now rewrite Z.eqb_refl.
+  Qed.
+
+  (** an error below max, with no stopOn/retryOn filters, is absorbed: try again *)
+  Lemma retry_iter_absorbed rc sp k max n s name msg eid s1 :
+    invoke sp (mkcnt (k_while k) (k_for k) (Some n))
+           (set_ctx s (sset "retryCounter" (VInt n) (ctx s))) = (ORaise (RExn name msg eid), s1) ->
+    (max = None \/ max = Some 0%Z \/ exists m, max = Some m /\ n <> m) ->
+    opt_truth (r_stopon rc) = false -> opt_truth (r_retryon rc) = false ->
+    retry_iter rc sp k max n s = (IDone false, s1).
+  Proof.
+    intros H Hmax Hs Hr. unfold Engine.retry_iter. rewrite H, Hs, Hr.
+    destruct Hmax as [-> | [-> | (m & -> & Hne)]]; try reflexivity.
+    destruct (Z.eqb_spec m 0); simpl; [reflexivity|].
+    destruct (Z.eqb_spec n m); [congruence|reflexivity].
+  Qed.
+
+  (** stopOn: a listed error propagates at once *)
+  Lemma retry_iter_stop_on rc sp k max n s name msg eid s1 l fl :
+    invoke sp (mkcnt (k_while k) (k_for k) (Some n))
+           (set_ctx s (sset "retryCounter" (VInt n) (ctx s))) = (ORaise (RExn name msg eid), s1) ->
+    (max = None \/ max = Some 0%Z \/ exists m, max = Some m /\ n <> m) ->
+    r_stopon rc = Some l -> py_truth l = true -> fmt s1 l = Ok (VList fl) ->
+    py_in (VStr name) fl = true ->
+    retry_iter rc sp k max n s = (IRaise (ORaise (RExn name msg eid)), s1).
+  Proof.
+    intros H Hmax Hl Ht Hf Hin. unfold Engine.retry_iter. rewrite H.
+    assert (A : (match max with Some m => negb (Z.eqb m 0) && Z.eqb n m | None => false end) = false).
+    { destruct Hmax as [-> | [-> | (m & -> & Hne)]]; try reflexivity.
+      destruct (Z.eqb_spec n m); [congruence|]. now rewrite andb_false_r. }
+    rewrite A. unfold opt_truth. rewrite Hl, Ht, Hf. simpl. rewrite Hin. reflexivity.
+  Qed.
+
+  (** retryOn: an error NOT listed in a non-empty retryOn propagates at once *)
+  Lemma retry_iter_not_retry_on rc sp k max n s name msg eid s1 l fl :
+    invoke sp (mkcnt (k_while k) (k_for k) (Some n))
+           (set_ctx s (sset "retryCounter" (VInt n) (ctx s))) = (ORaise (RExn name msg eid), s1) ->
+    (max = None \/ max = Some 0%Z \/ exists m, max = Some m /\ n <> m) ->
+    opt_truth (r_stopon rc) = false ->
+    r_retryon rc = Some l -> py_truth l = true -> fmt s1 l = Ok (VList fl) ->
+    py_in (VStr name) fl = false ->
+    retry_iter rc sp k max n s = (IRaise (ORaise (RExn name msg eid)), s1).
+  Proof.
+    intros H Hmax Hs Hl Ht Hf Hin. unfold Engine.retry_iter. rewrite H.
+    assert (A : (match max with Some m => negb (Z.eqb m 0) && Z.eqb n m | None => false end) = false).
+    { destruct Hmax as [-> | [-> | (m & -> & Hne)]]; try reflexivity.
+      destruct (Z.eqb_spec n m); [congruence|]. now rewrite andb_false_r. }
+    rewrite A, Hs. unfold opt_truth. rewrite Hl, Ht, Hf. simpl. rewrite Hin. reflexivity.
+  Qed.
+
+  (** an error that already passed through a called group is not recorded again, and a
+      retried call step sees the original error (C07) *)
+  Lemma retry_iter_handled_at_max rc sp k m n s cause s1 :
+    invoke sp (mkcnt (k_while k) (k_for k) (Some n))
+           (set_ctx s (sset "retryCounter" (VInt n) (ctx s))) = (OHandled cause, s1) ->
+    m <> 0%Z -> n = m ->
+    retry_iter rc sp k (Some m) n s = (IRaise (OHandled cause), s1).
+  Proof.
+    intros H Hm ->. unfold Engine.retry_iter. rewrite H.
+    destruct (Z.eqb_spec m 0); [congruence|]. simpl. now rewrite Z.eqb_refl.
+  Qed.
+
+  (** ** in-arguments: visible during the step, gone after normal completion (C04) *)
+  Lemma pop_all_absent (d : dict) (keys : list (val * val)) k v :
+    In (k, v) keys ->
+    dict_get k (fold_left (fun c (kv : val * val) => dict_pop (fst kv) c) keys d) = None.
+  Proof.
+    revert d. induction keys as [|[k0 v0] keys IH]; intros d Hin; [destruct Hin|].
+    simpl. destruct Hin as [Heq | Hin].
+    - inversion Heq; subst. clear IH Heq.
+      assert (G : forall ks d', dict_get k d' = None ->
+                  dict_get k (fold_left (fun c (kv : val * val) => dict_pop (fst kv) c) ks d') = None).
+      { induction ks as [|[k1 v1] ks IHk]; intros d' Hd; simpl; [exact Hd|].
+        apply IHk. unfold dict_pop. clear IHk. induction d' as [|[k2 v2] d' IHd]; simpl; [reflexivity|].
+        simpl in Hd. destruct (val_eqb k k2) eqn:E; [discriminate|].
+        destruct (val_eqb k1 k2); simpl; [now apply IHd|]. rewrite E. now apply IHd. }
+      apply G. apply dict_get_pop_same.
+    - now apply IH.
+  Qed.
+
+  Lemma run_step_in_removed sp s s' d k v :
+    s_in sp = Some d -> In (k, v) d ->
+    run_step sp s = (OOk, s') -> dict_get k (ctx s') = None.
+  Proof.
+    intros Hin Hk. unfold Engine.run_step.
+    destruct (match s_while sp with Some w => _ | None => _ end) as [[| | |] s2]; simpl;
+      intros H; inversion H; subst.
+    unfold unset_step_input. rewrite Hin. simpl. eapply pop_all_absent; eauto.
+  Qed.
+
+  (** the in-arguments are merged into context before anything of the step evaluates *)
+  Lemma run_step_in_first sp s :
+    run_step sp s =
+    andthen (match s_while sp with
+             | Some w => while_loop w sp (set_step_input sp s)
+             | None => foreach_or_cond sp no_counters (set_step_input sp s)
+             end) (fun s2 => (OOk, unset_step_input sp s2)).
+  Proof. reflexivity. Qed.
+End Open2.
+
+(** in-arguments override same-named context keys and are visible from the first moment *)
+Lemma val_eqb_to_VStr k0 a : val_eqb k0 (VStr a) = true -> k0 = VStr a.
+Proof.
+  destruct k0; unfold val_eqb; try discriminate. intros H. apply String.eqb_eq in H. now subst.
+Qed.
+
+Lemma sget_dict_set_other k0 k v d :
+  val_eqb k0 (VStr k) = false -> sget k (dict_set k0 v d) = sget k d.
+Proof.
+  intros Hne. unfold sget. induction d as [|[k' v'] d IH]; simpl.
+  - now rewrite val_eqb_str_sym, Hne.
+  - destruct (val_eqb k0 k') eqn:E; simpl.
+    + destruct (val_eqb (VStr k) k') eqn:E'; [|reflexivity]. exfalso.
+      rewrite val_eqb_str_sym in E'. apply val_eqb_to_VStr in E'. subst k'. congruence.
+    + destruct (val_eqb (VStr k) k'); auto.
+Qed.
+
+Lemma dict_update_visible c pre k v post :
+  Forall (fun kv : val * val => val_eqb (fst kv) (VStr k) = false) post ->
+  sget k (dict_update c (pre ++ (VStr k, v) :: post)%list) = Some v.
+Proof.
+  intros Hpost. unfold dict_update. rewrite fold_left_app. simpl.
+  generalize (fold_left (fun acc kv => dict_set (fst kv) (snd kv) acc) pre c) as d0. intros d0.
+  assert (G : forall d', sget k d' = Some v ->
+              sget k (fold_left (fun acc kv => dict_set (fst kv) (snd kv) acc) post d') = Some v).
+  { induction Hpost as [|[k1 v1] post Hk _ IH]; intros d' Hd; simpl; [exact Hd|].
+    apply IH. simpl in Hk. now rewrite sget_dict_set_other. }
+  apply G. apply sget_sset_same.
+Qed.
+
+(** * Back-off durations (C06), over exact rationals *)
+From Coq Require Import Lqa.
+
+Lemma backoff_fixed_scalar q mx jrc r base n :
+  backoff "fixed" (VFloat q) mx jrc r base n = Some (qmin_opt q mx).
+Proof. reflexivity. Qed.
+
+Lemma backoff_fixed_int z mx jrc r base n :
+  backoff "fixed" (VInt z) mx jrc r base n = Some (qmin_opt (inject_Z z) mx).
+Proof. reflexivity. Qed.
+
+(** a list: entry n, the last entry repeating for ever after *)
+Lemma backoff_fixed_list l mx jrc r base n v q :
+  nth_error l (n - 1) = Some v -> q_of v = Ok q ->
+  backoff "fixed" (VList l) mx jrc r base n = Some (qmin_opt q mx).
+Proof.
+  intros H Hq. unfold backoff. simpl. destruct l; [destruct (n - 1)%nat; discriminate|].
+  rewrite H, Hq. reflexivity.
+Qed.
+
+Lemma backoff_fixed_list_beyond l mx jrc r base n q :
+  l <> [] -> nth_error l (n - 1) = None -> q_of (last l VNone) = Ok q ->
+  backoff "fixed" (VList l) mx jrc r base n = Some (qmin_opt q mx).
+Proof.
+  intros Hl H Hq. unfold backoff. simpl. destruct l; [congruence|].
+  rewrite H, Hq. reflexivity.
+Qed.
+
+Lemma backoff_linear s q mx jrc r base n :
+  q_of s = Ok q ->
+  backoff "linear" s mx jrc r base n = Some (qmin_opt (inject_Z (Z.of_nat n) * q) mx).
+Proof. intros H. unfold backoff. simpl. now rewrite H. Qed.
+
+Lemma backoff_exponential s q mx jrc r base n :
+  q_of s = Ok q ->
+  backoff "exponential" s mx jrc r base n = Some (qmin_opt (qpow base n * q) mx).
+Proof. intros H. unfold backoff. simpl. now rewrite H. Qed.
+
+(** the jittered variants apply jitter AFTER the cap *)
+Lemma backoff_jitter_after_cap s mx jrc r base n :
+  backoff "jitter" s mx jrc r base n = option_map (jitter_q jrc r) (backoff "fixed" s mx jrc r base n)
+  /\ backoff "linearjitter" s mx jrc r base n
+     = option_map (jitter_q jrc r) (backoff "linear" s mx jrc r base n)
+  /\ backoff "exponentialjitter" s mx jrc r base n
+     = option_map (jitter_q jrc r) (backoff "exponential" s mx jrc r base n).
+Proof.
+  unfold backoff. simpl. repeat split;
+    match goal with |- match ?x with _ => _ end = _ => destruct x; reflexivity end.
+Qed.
+
+Lemma qmin_opt_none x : qmin_opt x None = x.
+Proof. reflexivity. Qed.
+
+(** sleepMax caps the duration (a falsy sleepMax means no cap) *)
+Lemma qmin_opt_cap x m :
+  ~ m == 0 -> qmin_opt x (Some m) <= m /\ qmin_opt x (Some m) <= x
+              /\ (qmin_opt x (Some m) = x \/ qmin_opt x (Some m) = m).
+Proof.
+  intros Hm. unfold qmin_opt.
+  destruct (Qeq_bool m 0) eqn:E; [apply Qeq_bool_iff in E; contradiction|].
+  destruct (Qle_bool x m) eqn:L.
+  - apply Qle_bool_iff in L. split; [exact L|]. split; [apply Qle_refl|now left].
+  - assert (N : ~ x <= m) by (intro C; apply Qle_bool_iff in C; congruence).
+    apply Qnot_le_lt in N. split; [apply Qle_refl|]. split; [now apply Qlt_le_weak|now right].
+Qed.
+
+(** jitter stays within [jrc*d, d] *)
+Lemma jitter_bounds jrc r d :
+  0 <= jrc -> jrc <= 1 -> 0 <= r -> r <= 1 -> 0 <= d ->
+  jrc * d <= jitter_q jrc r d /\ jitter_q jrc r d <= d.
+Proof.
+  intros H1 H2 H3 H4 H5. unfold jitter_q.
+  assert (A : 0 <= d * (1 - jrc)) by (apply Qmult_le_0_compat; lra).
+  assert (B : 0 <= d * (1 - jrc) * r) by (apply Qmult_le_0_compat; lra).
+  assert (C : 0 <= d * (1 - jrc) * (1 - r)) by (apply Qmult_le_0_compat; lra).
+  split.
+  - setoid_replace (d * jrc + (d - d * jrc) * r) with (jrc * d + d * (1 - jrc) * r) by ring. lra.
+  - setoid_replace (d * jrc + (d - d * jrc) * r) with (d - d * (1 - jrc) * (1 - r)) by ring. lra.
+Qed.
+
+(** * runErrors entries (C07) *)
+Definition failure_entry (sp : step) (name msg : string) (eid : Z) (custom : val) (swallowed : bool) : val :=
+  let pos v := match s_pos sp with Some p => VInt (v p) | None => VNone end in
+  VDict [(VStr "name", VStr name); (VStr "description", VStr msg);
+         (VStr "customError", custom); (VStr "line", pos fst);
+         (VStr "col", pos snd); (VStr "step", VStr (s_name sp));
+         (VStr "exception", VExn name msg eid); (VStr "swallowed", VBool swallowed)].
+
+Definition on_error_payload (sp : step) (s : st) : res val :=
+  match s_onerror sp with
+  | Some oe => if py_truth oe then fmt s oe else Ok (VDict [])
+  | None => Ok (VDict [])
+  end.
+
+Definition run_errors (s : st) : list val :=
+  match sget "runErrors" (ctx s) with Some (VList l) => l | _ => [] end.
+
+(** exactly one entry is appended, with exactly these fields, after the existing ones *)
+Lemma save_error_appends sp name msg eid sw s custom :
+  on_error_payload sp s = Ok custom ->
+  (sget "runErrors" (ctx s) = None \/ exists l, sget "runErrors" (ctx s) = Some (VList l)) ->
+  exists s', save_error sp name msg eid sw s = (OOk, s') /\
+             run_errors s' = (run_errors s ++ [failure_entry sp name msg eid custom sw])%list /\
+             (forall k, k <> "runErrors" -> sget k (ctx s') = sget k (ctx s)) /\
+             stack s' = stack s /\ trace s' = trace s /\ sleeps s' = sleeps s.
+Proof.
+  intros Hc Hr. unfold save_error. fold (on_error_payload sp s). rewrite Hc. simpl.
+  unfold run_errors. destruct Hr as [Hr | (l & Hr)]; rewrite Hr.
+  - eexists; split; [reflexivity|]. simpl. rewrite sget_sset_same. repeat split; auto.
+    intros k Hk. now rewrite sget_sset_other by congruence.
+  - eexists; split; [reflexivity|]. simpl. rewrite sget_sset_same. repeat split; auto.
+    intros k Hk. now rewrite sget_sset_other by congruence.
+Qed.
+
+(** * Call stack, trace and clock only ever grow: the global invariant *)
+Local Open Scope list_scope.
+Definition ext (s s' : st) : Prop :=
+  stack s' = stack s /\ (exists t, trace s' = trace s ++ t) /\
+  (exists q, sleeps s' = sleeps s ++ q) /\ (next_eid s <= next_eid s')%Z /\ jit s' = jit s.
+
+Lemma ext_refl s : ext s s.
+Proof. repeat split; try (exists []; now rewrite app_nil_r); lia. Qed.
+
+Lemma ext_trans a b c : ext a b -> ext b c -> ext a c.
+Proof.
+  intros (S1 & (t1 & T1) & (q1 & Q1) & E1 & J1) (S2 & (t2 & T2) & (q2 & Q2) & E2 & J2).
+  repeat split; try congruence; try lia.
+  - exists (t1 ++ t2). now rewrite T2, T1, app_assoc.
+  - exists (q1 ++ q2). now rewrite Q2, Q1, app_assoc.
+Qed.
+
+Lemma ext_set_ctx s0 s c : ext s0 s -> ext s0 (set_ctx s c).
+Proof. intros H. eapply ext_trans; [exact H|]. repeat split; simpl; try (exists []; now rewrite app_nil_r); lia. Qed.
+
+Lemma ext_add_trace s0 s e : ext s0 s -> ext s0 (add_trace s e).
+Proof.
+  intros H. eapply ext_trans; [exact H|]. repeat split; simpl; try lia.
+  - now exists [e]. - exists []; now rewrite app_nil_r.
+Qed.
+
+Lemma ext_add_sleep s0 s q : ext s0 s -> ext s0 (add_sleep s q).
+Proof.
+  intros H. eapply ext_trans; [exact H|]. repeat split; simpl; try lia.
+  - exists []; now rewrite app_nil_r. - now exists [q].
+Qed.
+
+Lemma ext_raise_new s0 s n m : ext s0 s -> ext s0 (snd (raise_new n m s)).
+Proof.
+  intros H. eapply ext_trans; [exact H|]. repeat split; simpl; try (exists []; now rewrite app_nil_r); lia.
+Qed.
+
+Lemma ext_lift {A} s0 (r : res A) s k :
+  ext s0 s -> (forall a, ext s0 (snd (k a))) -> ext s0 (snd (lift r s k)).
+Proof. intros H Hk. destruct r; [apply Hk | now apply ext_raise_new | exact H]. Qed.
+
+Lemma ext_andthen s0 r k :
+  ext s0 (snd r) -> (forall s1, ext s0 s1 -> ext s0 (snd (k s1))) -> ext s0 (snd (andthen r k)).
+Proof. intros H Hk. destruct r as [[| | |] s1]; simpl in *; auto. Qed.
+
+Definition good (f : st -> R) : Prop := forall s0 s, ext s0 s -> ext s0 (snd (f s)).
+Definition good_iter (it : Z -> st -> iter_result * st) : Prop :=
+  forall n s0 s, ext s0 s -> ext s0 (snd (it n s)).
+
+Lemma good_poll fuel it interval max :
+  good_iter it -> forall i s0 s, ext s0 s -> ext s0 (snd (poll fuel it interval max i s)).
+Proof.
+  intros Hit. induction fuel as [|f IH]; intros i s0 s H; [exact H|].
+  assert (P : poll (S f) it interval max i s =
+              let i' := (i + 1)%Z in
+              match it i' s with
+              | (IRaise o, s1) => (IRaise o, s1)
+              | (IDone true, s1) => (IDone true, s1)
+              | (IDone false, s1) =>
+                  match interval (Z.to_nat i') with
+                  | None => (IRaise OUnsup, s1)
+                  | Some d =>
+                      match max with
+                      | Some m =>
+                          if Z.eqb m 0 then poll f it interval max i' (add_sleep s1 d)
+                          else if (i' <? m)%Z then poll f it interval max i' (add_sleep s1 d)
+                          else (IDone false, s1)
+                      | None => poll f it interval max i' (add_sleep s1 d)
+                      end
+                  end
+              end) by reflexivity.
+  rewrite P. clear P. cbv zeta.
+  pose proof (Hit (i + 1)%Z s0 s H) as H1.
+  destruct (it (i + 1)%Z s) as [[[|]|o] s1]; simpl in H1 |- *; auto.
+  destruct (interval _); auto.
+  destruct max as [m|]; [destruct (Z.eqb m 0); [|destruct (Z.ltb _ m)]|];
+    auto; apply IH; now apply ext_add_sleep.
+Qed.
+
+Section Invariant.
+  Variable lib : library.
+  Variable rg : list val -> option string -> option string -> st -> R.
+  Variable rp : string -> option (list val) -> option string -> option string -> st -> R.
+  Hypothesis Hrg : forall gs su fa, good (rg gs su fa).
+  Hypothesis Hrp : forall n gs su fa, good (rp n gs su fa).
+
+  Ltac ext_step :=
+    first [ assumption
+          | apply ext_set_ctx | apply ext_add_trace | apply ext_add_sleep
+          | apply ext_raise_new | apply ext_lift; [|intros ?] | apply ext_andthen; [|intros ? ?] ].
+
+  Lemma good_set_items items : good (set_items items).
+  Proof.
+    induction items as [|[k v] items IH]; intros s0 s H; simpl; [exact H|].
+    apply ext_lift; [exact H|intros k']. apply ext_lift; [exact H|intros v'].
+    apply IH. now apply ext_set_ctx.
+  Qed.
+
+  Lemma good_cof_step mk key caller : good (cof_step mk key caller).
+  Proof.
+    intros s0 s H. unfold cof_step. repeat (apply ext_lift; [exact H|intros ?]). exact H.
+  Qed.
+
+  Lemma good_switch_step : good switch_step.
+  Proof.
+    intros s0 s H. unfold switch_step. apply ext_lift; [exact H|intros cfg].
+    destruct cfg; try exact H. apply ext_lift; [exact H|intros sel].
+    destruct sel; [|exact H]. repeat (apply ext_lift; [exact H|intros ?]). exact H.
+  Qed.
+
+  Lemma good_write_out pairs child : forall s0 parent, ext s0 parent ->
+    ext s0 (snd (write_out pairs child parent)).
+  Proof.
+    induction pairs as [|[pk ck] pairs IH]; intros s0 parent H; simpl; [exact H|].
+    destruct ck; try exact H.
+    destruct (get_formatted child s); [|now apply ext_raise_new|exact H].
+    apply IH. now apply ext_set_ctx.
+  Qed.
+
+  Lemma good_pype_step : good (pype_step rp).
+  Proof.
+    intros s0 s H. unfold pype_step. apply ext_lift; [exact H|intros pa].
+    destruct (pa_use_parent pa).
+    - set (s1 := match pa_args pa with Some ((_ :: _) as a) => set_ctx s (dict_update (ctx s) a) | _ => s end).
+      assert (H1 : ext s0 s1).
+      { unfold s1. destruct (pa_args pa) as [[|? ?]|]; auto using ext_set_ctx. }
+      pose proof (Hrp (pa_name pa) (pa_groups pa) (pa_success pa) (pa_failure pa) s0 s1 H1) as G.
+      destruct (rp _ _ _ _ s1) as [[|[n m e|sg]|c|] s2]; simpl in G |- *; auto;
+        destruct (pa_raise pa); auto.
+    - set (child0 := mkst _ [] (trace s) (sleeps s) (next_eid s) (jit s)).
+      assert (Hc : ext child0 child0) by apply ext_refl.
+      pose proof (Hrp (pa_name pa) (pa_groups pa) (pa_success pa) (pa_failure pa) child0 child0 Hc) as G.
+      destruct (rp _ _ _ _ child0) as [o child]. simpl in G.
+      set (parent := mkst (ctx s) (stack s) (trace child) (sleeps child) (next_eid child) (jit s)).
+      assert (Hp : ext s0 parent).
+      { eapply ext_trans; [exact H|]. destruct G as (_ & (t & T) & (q & Q) & E & _).
+        unfold parent. repeat split; simpl in *; try lia; eauto. }
+      assert (W : forall r : R, ext s0 (snd r) ->
+                ext s0 (snd (match r with
+                             | (ORaise (RExn _ _ _), s') | (OHandled _, s') =>
+                                 if pa_raise pa then r else (OOk, s')
+                             | _ => r end))).
+      { intros [[|[? ? ?|?]|?|] s'] Hr; simpl in *; auto; destruct (pa_raise pa); auto. }
+      apply W. destruct o; auto.
+      destruct (pa_out pa) as [out|]; auto. destruct (py_truth out); auto.
+      destruct (out_pairs out); auto. now apply good_write_out.
+  Qed.
+
+  Lemma good_run_body sp : good (run_body rp sp).
+  Proof.
+    intros s0 s H. unfold run_body. destruct (s_body sp).
+    - (* probe *) unfold probe_step. simpl. now apply ext_add_trace.
+    - (* fail *) unfold fail_step. destruct (sget "vfail" (ctx s)) as [[]|]; auto.
+      apply ext_lift; [exact H|intros b]. destruct b; auto.
+      destruct (sget "err" l) as [[]|]; auto. destruct (sget "msg" l); auto.
+      apply ext_lift; [exact H|intros m']. destruct m'; auto. now apply ext_raise_new.
+    - (* incr *) unfold incr_step. destruct (sget "vincr" (ctx s)) as [[]|]; auto.
+      destruct (sget s1 (ctx s)) as [[]|]; simpl; auto using ext_set_ctx.
+    - exact H.
+    - exact H.
+    - exact H.
+    - now apply good_cof_step.
+    - now apply good_cof_step.
+    - now apply good_switch_step.
+    - (* set *) unfold set_step. apply ext_lift; [exact H|intros cfg]. destruct cfg; auto.
+      apply good_set_items. now apply ext_set_ctx.
+    - (* clear *) unfold clear_step. apply ext_lift; [exact H|intros cfg].
+      destruct cfg; simpl; auto using ext_set_ctx.
+    - simpl. now apply ext_set_ctx.
+    - now apply good_pype_step.
+  Qed.
+
+  Lemma ext_reset_counters s0 sp k c s : ext s0 s -> ext s0 (reset_counters sp k c s).
+  Proof. intros H. unfold reset_counters. now apply ext_set_ctx. Qed.
+
+  Lemma good_invoke sp k : good (invoke rg rp sp k).
+  Proof.
+    intros s0 s H. unfold invoke.
+    pose proof (good_run_body sp s0 s H) as G.
+    destruct (run_body rp sp s) as [[|[n m e|[| | |c|c]]|c|] s1]; simpl in G |- *; auto.
+    pose proof (Hrg (c_groups c) (c_success c) (c_failure c) s0 s1 G) as G2.
+    destruct (rg _ _ _ s1) as [o s2]. simpl in G2.
+    pose proof (ext_reset_counters s0 sp k c s2 G2) as G3.
+    destruct o as [|[? ? ?|?]|?|]; exact G3.
+  Qed.
+
+  Lemma good_save_error sp n m e sw : good (save_error sp n m e sw).
+  Proof.
+    intros s0 s H. unfold save_error. apply ext_lift; [exact H|intros custom].
+    destruct (sget "runErrors" (ctx s)) as [[]|]; auto; now apply ext_set_ctx.
+  Qed.
+
+  Ltac crunch G :=
+    repeat match goal with
+           | |- ext _ (snd (match ?x with _ => _ end)) => destruct x
+           | |- ext _ (snd (if ?x then _ else _)) => destruct x
+           | |- ext _ (snd (let '(_, _) := ?x in _)) => destruct x eqn:?
+           end; simpl; auto.
+
+  Lemma good_retry_iter rc sp k max : good_iter (retry_iter rg rp rc sp k max).
+  Proof.
+    intros n s0 s H. unfold retry_iter.
+    set (s1 := set_ctx s _). assert (H1 : ext s0 s1) by now apply ext_set_ctx.
+    pose proof (good_invoke sp (mkcnt (k_while k) (k_for k) (Some n)) s0 s1 H1) as G.
+    destruct (invoke rg rp sp _ s1) as [o s2]. simpl in G.
+    unfold raise_new.
+    destruct o as [|[nm ms ei|sg]|c|]; simpl; auto; crunch G;
+      try (exact (ext_raise_new s0 s2 "" "" G)).
+  Qed.
+  Lemma good_retry_loop rc sp k : good (retry_loop rg rp rc sp k).
+  Proof.
+    intros s0 s H. unfold retry_loop.
+    set (s1 := set_ctx s _). assert (H1 : ext s0 s1) by now apply ext_set_ctx.
+    repeat (apply ext_lift; [exact H1|intros ?]).
+    repeat match goal with
+           | |- ext _ (snd (match ?x with _ => _ end)) =>
+               lazymatch x with
+               | poll _ _ _ _ _ _ => fail
+               | _ => destruct x; auto
+               end
+           end.
+    match goal with
+    | |- context [poll ?f ?it ?iv ?mx ?i s1] =>
+        pose proof (good_poll f it iv mx (good_retry_iter rc sp k mx) i s0 s1 H1) as G;
+          destruct (poll f it iv mx i s1) as [[[|]|o] s3]; simpl in G |- *; auto
+    end.
+    exact (ext_raise_new s0 s3 "" "" G).
+  Qed.
+
+  Lemma good_cond sp k : good (cond rg rp sp k).
+  Proof.
+    intros s0 s H. unfold cond. apply ext_lift; [exact H|intros run_me].
+    destruct run_me; simpl; auto. apply ext_lift; [exact H|intros skip_me].
+    destruct skip_me; simpl; auto.
+    assert (G : ext s0 (snd (match s_retry sp with
+                             | Some rc => retry_loop rg rp rc sp k s
+                             | None => invoke rg rp sp k s end))).
+    { destruct (s_retry sp); [now apply good_retry_loop|now apply good_invoke]. }
+    destruct (match s_retry sp with Some rc => _ | None => _ end) as [[|[n m e|sg]|c|] s1];
+      simpl in G |- *; auto.
+    - apply ext_lift; [exact G|intros sw]. apply ext_andthen.
+      + now apply good_save_error.
+      + intros s2 H2. destruct sw; exact H2.
+    - apply ext_lift; [exact G|intros sw]. destruct sw; exact G.
+  Qed.
+
+  Lemma good_foreach_items sp k items : good (foreach_items rg rp sp k items).
+  Proof.
+    induction items as [|it items IH]; intros s0 s H; simpl; [exact H|].
+    apply ext_andthen.
+    - apply good_cond. now apply ext_set_ctx.
+    - intros s1 H1. now apply IH.
+  Qed.
+
+  Lemma good_foreach_or_cond sp k : good (foreach_or_cond rg rp sp k).
+  Proof.
+    intros s0 s H. unfold foreach_or_cond. destruct (has_foreach sp); [|now apply good_cond].
+    unfold foreach_loop. destruct (s_foreach sp); auto.
+    apply ext_lift; [exact H|intros fv]. apply ext_lift; [exact H|intros items].
+    now apply good_foreach_items.
+  Qed.
+
+  Lemma good_while_iter w sp : good_iter (while_iter rg rp w sp).
+  Proof.
+    intros n s0 s H. unfold while_iter.
+    set (s1 := set_ctx s _). assert (H1 : ext s0 s1) by now apply ext_set_ctx.
+    pose proof (good_foreach_or_cond sp (mkcnt (Some n) None None) s0 s1 H1) as G.
+    destruct (foreach_or_cond rg rp sp _ s1) as [o s2]. simpl in G. unfold raise_new.
+    destruct o; simpl; auto; crunch G; try (exact (ext_raise_new s0 s2 "" "" G)).
+  Qed.
+
+  Lemma good_while_loop w sp : good (while_loop rg rp w sp).
+  Proof.
+    intros s0 s H. unfold while_loop.
+    set (s1 := set_ctx s _). assert (H1 : ext s0 s1) by now apply ext_set_ctx.
+    assert (K : forall r : R, ext s0 (snd r) ->
+      ext s0 (snd (match w_stop w, w_max w with None, None => (OUnsup, s1) | _, _ => r end))).
+    { intros r Hr. destruct (w_stop w), (w_max w); auto. }
+    apply K. clear K.
+    repeat (apply ext_lift; [exact H1|intros ?]).
+    match goal with |- ext _ (snd (if ?x then _ else _)) => destruct x; auto end.
+    match goal with
+    | |- context [poll ?f ?it ?iv ?mx ?i s1] =>
+        pose proof (good_poll f it iv mx (good_while_iter w sp) i s0 s1 H1) as G;
+          destruct (poll f it iv mx i s1) as [[[|]|o] s3]; simpl in G |- *; auto
+    end.
+    repeat match goal with
+           | |- ext _ (snd (match ?x with _ => _ end)) => destruct x; auto
+           | |- ext _ (snd (if ?x then _ else _)) => destruct x; auto
+           end; try exact (ext_raise_new s0 s3 "" "" G).
+  Qed.
+
+  Lemma good_run_step sp : good (run_step rg rp sp).
+  Proof.
+    intros s0 s H. unfold run_step.
+    assert (H1 : ext s0 (set_step_input sp s)).
+    { unfold set_step_input. destruct (s_in sp) as [[|? ?]|]; auto using ext_set_ctx. }
+    apply ext_andthen.
+    - destruct (s_while sp); [now apply good_while_loop|now apply good_foreach_or_cond].
+    - intros s2 H2. simpl. unfold unset_step_input. destruct (s_in sp); auto using ext_set_ctx.
+  Qed.
+
+  Lemma good_run_steps steps : good (run_steps rg rp steps).
+  Proof.
+    induction steps as [|sp steps IH]; intros s0 s H; simpl; [exact H|].
+    apply ext_andthen; [now apply good_run_step|intros s1 H1; now apply IH].
+  Qed.
+
+  Lemma good_run_group g b : good (run_group lib rg rp g b).
+  Proof.
+    intros s0 s H. unfold run_group.
+    pose proof (good_run_steps (get_steps lib g s) s0 s H) as G.
+    destruct (run_steps rg rp _ s) as [[|[n m e|[| | |c|c]]|c|] s1]; simpl in G |- *; auto.
+    - destruct b; exact G.
+    - now apply Hrg.
+  Qed.
+
+  Lemma good_run_group_seq gs : good (run_group_seq lib rg rp gs).
+  Proof.
+    induction gs as [|g gs IH]; intros s0 s H; simpl; [exact H|].
+    apply ext_andthen; [now apply good_run_group|intros s1 H1; now apply IH].
+  Qed.
+
+  Lemma good_run_failure g : good (run_failure lib rg rp g).
+  Proof.
+    intros s0 s H. unfold run_failure.
+    pose proof (good_run_group g true s0 s H) as G.
+    destruct (run_group lib rg rp g true s) as [[|[n m e|sg]|c|] s1]; exact G.
+  Qed.
+
+  Lemma good_groups_body gs su fa : good (groups_body lib rg rp gs su fa).
+  Proof.
+    intros s0 s H. unfold groups_body. destruct gs as [|g gs]; [now apply ext_raise_new|].
+    destruct (names_of (g :: gs)) as [names|]; auto.
+    assert (G : ext s0 (snd (andthen (run_group_seq lib rg rp names s)
+                 (fun s1 => match su with
+                            | Some sg => match sg with "" => (OOk, s1) | _ => run_group lib rg rp sg false s1 end
+                            | None => (OOk, s1) end)))).
+    { apply ext_andthen; [now apply good_run_group_seq|intros s1 H1].
+      destruct su as [[|]|]; auto. now apply good_run_group. }
+    destruct (andthen _ _) as [[|[n m e|sg]|c|] s1]; simpl in G |- *; auto.
+    destruct fa as [[|a fg]|]; auto.
+    pose proof (good_run_failure (String a fg) s0 s1 G) as G2.
+    destruct (run_failure lib rg rp (String a fg) s1) as [[|[n' m' e'|[| | |c|c]]|c|] s2]; exact G2.
+  Qed.
+
+  Lemma good_run_pipeline_inner gs su fa : good (run_pipeline_inner rg gs su fa).
+  Proof.
+    intros s0 s H. unfold run_pipeline_inner.
+    match goal with |- ext _ (snd (match rg ?a ?b ?c s with _ => _ end)) =>
+      pose proof (Hrg a b c s0 s H) as G; destruct (rg a b c s) as [[|[n m e|[| | |c'|c']]|c'|] s1] end;
+      exact G.
+  Qed.
+End Invariant.
+
+(** push / run / pop-in-finally: whatever happens the call stack is restored *)
+Lemma good_load_and_run lib rg name gs su fa :
+  (forall gs su fa, good (rg gs su fa)) -> good (load_and_run lib rg name gs su fa).
+Proof.
+  intros Hrg s0 s H. unfold load_and_run. destruct (find _ lib); [|exact H].
+  set (s' := set_stack s (name :: stack s)).
+  pose proof (good_run_pipeline_inner rg Hrg gs su fa s' s' (ext_refl s')) as G.
+  destruct (run_pipeline_inner rg gs su fa s') as [o s1]. simpl in G |- *.
+  destruct G as (S1 & (t & T) & (q & Q) & E & J).
+  eapply ext_trans; [exact H|]. unfold s' in *. simpl in *.
+  repeat split; simpl; try lia; eauto. now rewrite S1.
+Qed.
+
+Theorem good_run_groups fuel lib : forall gs su fa, good (run_groups fuel lib gs su fa).
+Proof.
+  induction fuel as [|f IH]; intros gs su fa; [intros s0 s H; exact H|].
+  simpl. apply good_groups_body; [exact IH|].
+  intros n gs' su' fa'. now apply good_load_and_run.
+Qed.
+
+Theorem good_run_pipeline fuel lib name gs su fa : good (run_pipeline fuel lib name gs su fa).
+Proof. apply good_load_and_run. apply good_run_groups. Qed.
+
+(** * The truth rule (C04) *)
+Lemma cast_str_to_bool_spec x :
+  cast_str_to_bool x = true <-> lower x = "true" \/ lower x = "1" \/ lower x = "1.0".
+Proof.
+  unfold cast_str_to_bool. cbn [str_in]. rewrite !orb_true_iff.
+  rewrite !String.eqb_eq. intuition discriminate.
+Qed.
+
+Lemma as_bool_plain s v :
+  (forall x, v <> VStr x) -> (forall x e, v <> VPy x e) -> (forall x, v <> VSic x) ->
+  (forall x, v <> VJsonify x) -> as_bool s v = Ok (py_truth v).
+Proof.
+  intros H1 H2 H3 H4. destruct v; try reflexivity; exfalso;
+    solve [eapply H1; reflexivity | eapply H2; reflexivity | eapply H3; reflexivity
+          | eapply H4; reflexivity].
+Qed.
+
+Lemma as_bool_str s x r :
+  fmt s (VStr x) = Ok r ->
+  as_bool s (VStr x) = Ok (match r with
+                           | VBool b => b
+                           | VStr y => cast_str_to_bool y
+                           | _ => py_truth r
+                           end).
+Proof. intros H. unfold as_bool. rewrite H. destruct r; reflexivity. Qed.
+
+Lemma as_bool_py s src e r :
+  fmt s (VPy src e) = Ok r -> as_bool s (VPy src e) = Ok (py_truth r).
+Proof. intros H. unfold as_bool. now rewrite H. Qed.
+
+(** * Pipelines and pype (C02, C11) *)
+Section Pipes.
+  Variable lib : library.
+  Variable rg : list val -> option string -> option string -> st -> R.
+  Variable rp : string -> option (list val) -> option string -> option string -> st -> R.
+
+  Definition effective_groups (groups : option (list val)) : list val :=
+    match groups with None | Some [] => [VStr "steps"] | Some g => g end.
+
+  Definition none_or_empty (o : option string) : bool :=
+    match o with None | Some "" => true | _ => false end.
+
+  Definition defaulted (groups : option (list val)) (su fa : option string) : bool :=
+    (match groups with None | Some [] => true | _ => false end) && none_or_empty su && none_or_empty fa.
+
+  Lemma run_pipeline_inner_unfold groups su fa s :
+    run_pipeline_inner rg groups su fa s =
+    match rg (effective_groups groups)
+             (if defaulted groups su fa then Some "on_success" else su)
+             (if defaulted groups su fa then Some "on_failure" else fa) s with
+    | (ORaise (RSig SStopPipeline), s1) => (OOk, s1)
+    | r => r
+    end.
+  Proof.
+    unfold run_pipeline_inner, effective_groups, defaulted, none_or_empty.
+    destruct groups as [[|g gs]|]; reflexivity.
+  Qed.
+
+  (** StopPipeline ends only the current pipeline; Stop passes through *)
+  Lemma load_and_run_stoppipeline name pl groups su fa s s1 :
+    find (fun p => String.eqb (fst p) name) lib = Some pl ->
+    rg (effective_groups groups)
+       (if defaulted groups su fa then Some "on_success" else su)
+       (if defaulted groups su fa then Some "on_failure" else fa)
+       (set_stack s (name :: stack s)) = (ORaise (RSig SStopPipeline), s1) ->
+    load_and_run lib rg name groups su fa s = (OOk, set_stack s1 (tl (stack s1))).
+  Proof.
+    intros Hf Hr. unfold load_and_run. rewrite Hf, run_pipeline_inner_unfold, Hr. reflexivity.
+  Qed.
+
+  Lemma load_and_run_stop name pl groups su fa s s1 :
+    find (fun p => String.eqb (fst p) name) lib = Some pl ->
+    rg (effective_groups groups)
+       (if defaulted groups su fa then Some "on_success" else su)
+       (if defaulted groups su fa then Some "on_failure" else fa)
+       (set_stack s (name :: stack s)) = (ORaise (RSig SStop), s1) ->
+    load_and_run lib rg name groups su fa s = (ORaise (RSig SStop), set_stack s1 (tl (stack s1))).
+  Proof.
+    intros Hf Hr. unfold load_and_run. rewrite Hf, run_pipeline_inner_unfold, Hr. reflexivity.
+  Qed.
+
+  (** ** pype *)
+  Definition pype_guard (pa : pype_args) (r : R) : R :=
+    match r with
+    | (ORaise (RExn _ _ _), s') | (OHandled _, s') => if pa_raise pa then r else (OOk, s')
+    | _ => r
+    end.
+
+  Definition child_start (pa : pype_args) (s : st) : st :=
+    mkst (match pa_args pa with Some a => a | None => [] end) []
+         (trace s) (sleeps s) (next_eid s) (jit s).
+
+  Definition back_in_parent (s child : st) : st :=
+    mkst (ctx s) (stack s) (trace child) (sleeps child) (next_eid child) (jit s).
+
+  Lemma pype_step_own_context s pa :
+    get_arguments s = Ok pa -> pa_use_parent pa = false ->
+    pype_step rp s =
+    (let '(o, child) := rp (pa_name pa) (pa_groups pa) (pa_success pa) (pa_failure pa)
+                           (child_start pa s) in
+     let parent := back_in_parent s child in
+     pype_guard pa
+       (match o with
+        | OOk =>
+            match pa_out pa with
+            | Some out =>
+                if py_truth out then
+                  match out_pairs out with
+                  | Some pairs => write_out pairs child parent
+                  | None => (OUnsup, parent)
+                  end
+                else (OOk, parent)
+            | None => (OOk, parent)
+            end
+        | _ => (o, parent)
+        end)).
+  Proof.
+    intros Ha Hu. unfold pype_step. rewrite Ha. simpl. rewrite Hu. reflexivity.
+  Qed.
+
+  Lemma pype_step_shared_context s pa :
+    get_arguments s = Ok pa -> pa_use_parent pa = true ->
+    pype_step rp s =
+    pype_guard pa (rp (pa_name pa) (pa_groups pa) (pa_success pa) (pa_failure pa)
+                      (match pa_args pa with
+                       | Some ((_ :: _) as a) => set_ctx s (dict_update (ctx s) a)
+                       | _ => s
+                       end)).
+  Proof.
+    intros Ha Hu. unfold pype_step. rewrite Ha. simpl. rewrite Hu. reflexivity.
+  Qed.
+
+  (** the parent context is untouched by anything the child does, except for [out] *)
+  Lemma write_out_frame pairs child : forall parent o p' key,
+    write_out pairs child parent = (o, p') ->
+    Forall (fun kv : val * val => val_eqb (fst kv) (VStr key) = false) pairs ->
+    sget key (ctx p') = sget key (ctx parent).
+  Proof.
+    induction pairs as [|[pk ck] pairs IH]; intros parent o p' key H Hall; simpl in H.
+    - now inversion H.
+    - inversion Hall as [|? ? Hk Hrest]; subst. simpl in Hk.
+      destruct ck; try (inversion H; subst; reflexivity).
+      destruct (get_formatted child s).
+      + rewrite (IH _ _ _ key H Hrest). simpl. now apply sget_dict_set_other.
+      + unfold raise_new in H. inversion H; subst. reflexivity.
+      + inversion H; subst. reflexivity.
+  Qed.
+
+  Lemma pype_guard_ctx pa r : ctx (snd (pype_guard pa r)) = ctx (snd r).
+  Proof.
+    destruct r as [[|[? ? ?|?]|?|] s']; simpl; try reflexivity; destruct (pa_raise pa); reflexivity.
+  Qed.
+
+  Lemma pype_isolation s pa key :
+    get_arguments s = Ok pa -> pa_use_parent pa = false ->
+    (forall out pairs, pa_out pa = Some out -> out_pairs out = Some pairs ->
+       Forall (fun kv : val * val => val_eqb (fst kv) (VStr key) = false) pairs) ->
+    sget key (ctx (snd (pype_step rp s))) = sget key (ctx s).
+  Proof.
+    intros Ha Hu Hout. rewrite (pype_step_own_context s pa Ha Hu).
+    destruct (rp _ _ _ _ (child_start pa s)) as [o child]. cbv zeta.
+    rewrite pype_guard_ctx.
+    destruct o; try reflexivity.
+    destruct (pa_out pa) as [out|] eqn:Eo; try reflexivity.
+    destruct (py_truth out); try reflexivity.
+    destruct (out_pairs out) as [pairs|] eqn:Ep; try reflexivity.
+    destruct (write_out pairs child (back_in_parent s child)) as [o' p'] eqn:W. simpl.
+    rewrite (write_out_frame pairs child _ _ _ key W (Hout out pairs eq_refl Ep)). reflexivity.
+  Qed.
+
+  (** the call stack of the parent context is what it was, however the child ended *)
+  Lemma write_out_stack pairs child : forall parent,
+    stack (snd (write_out pairs child parent)) = stack parent.
+  Proof.
+    induction pairs as [|[pk ck] pairs IH]; intros parent; simpl; [reflexivity|].
+    destruct ck; try reflexivity.
+    destruct (get_formatted child s); try reflexivity. now rewrite IH.
+  Qed.
+
+  Lemma pype_guard_stack pa r : stack (snd (pype_guard pa r)) = stack (snd r).
+  Proof.
+    destruct r as [[|[? ? ?|?]|?|] s']; simpl; try reflexivity; destruct (pa_raise pa); reflexivity.
+  Qed.
+
+  Lemma pype_own_context_stack s pa :
+    get_arguments s = Ok pa -> pa_use_parent pa = false ->
+    stack (snd (pype_step rp s)) = stack s.
+  Proof.
+    intros Ha Hu. rewrite (pype_step_own_context s pa Ha Hu).
+    destruct (rp _ _ _ _ (child_start pa s)) as [o child]. cbv zeta.
+    rewrite pype_guard_stack.
+    destruct o; try reflexivity.
+    destruct (pa_out pa) as [out|]; try reflexivity.
+    destruct (py_truth out); try reflexivity.
+    destruct (out_pairs out) as [pairs|]; try reflexivity.
+    now rewrite write_out_stack.
+  Qed.
+
+  (** error / instruction table of the pype step *)
+  Lemma pype_guard_error pa n m e s' :
+    pype_guard pa (ORaise (RExn n m e), s') =
+    if pa_raise pa then (ORaise (RExn n m e), s') else (OOk, s').
+  Proof. reflexivity. Qed.
+
+  Lemma pype_guard_signal pa sg s' : pype_guard pa (ORaise (RSig sg), s') = (ORaise (RSig sg), s').
+  Proof. reflexivity. Qed.
+
+  Lemma pype_guard_ok pa s' : pype_guard pa (OOk, s') = (OOk, s').
+  Proof. reflexivity. Qed.
+End Pipes.
+
+(** Stop of any kind is caught at the root and the API reports success *)
+Lemma api_run_stop fuel lib name d gs su fa j s1 sg :
+  run_pipeline fuel lib name gs su fa (mkst d [] [] [] 0 j) = (ORaise (RSig sg), s1) ->
+  (sg = SStop \/ sg = SStopPipeline \/ sg = SStopStepGroup) ->
+  api_run fuel lib name d gs su fa j = (OOk, s1).
+Proof. intros H [-> | [-> | ->]]; unfold api_run; now rewrite H. Qed.
+
+Lemma api_run_ok fuel lib name d gs su fa j s1 :
+  run_pipeline fuel lib name gs su fa (mkst d [] [] [] 0 j) = (OOk, s1) ->
+  api_run fuel lib name d gs su fa j = (OOk, s1).
+Proof. intros H. unfold api_run. now rewrite H. Qed.
+
+Lemma api_run_error fuel lib name d gs su fa j s1 n m e :
+  run_pipeline fuel lib name gs su fa (mkst d [] [] [] 0 j) = (ORaise (RExn n m e), s1) ->
+  api_run fuel lib name d gs su fa j = (ORaise (RExn n m e), s1).
+Proof. intros H. unfold api_run. now rewrite H. Qed.
